@@ -299,30 +299,40 @@ class TemplateLookup(TemplateCollection):
             try:
                 # try returning from collection one
                 # more time in case concurrent thread already loaded
-                return self._collection[uri]
+                template = self._collection[uri]
             except KeyError:
-                pass
-            try:
-                if self.modulename_callable is not None:
-                    module_filename = self.modulename_callable(filename, uri)
-                else:
-                    module_filename = None
-                self._collection[uri] = template = Template(
-                    uri=uri,
-                    filename=posixpath.normpath(filename),
-                    lookup=self,
-                    module_filename=module_filename,
-                    **self.template_args,
-                )
-                return template
-            except:
-                # if compilation fails etc, ensure
-                # template is removed from collection,
-                # re-raise
-                self._collection.pop(uri, None)
-                raise
+                template = None
+            if template is None:
+                try:
+                    if self.modulename_callable is not None:
+                        module_filename = self.modulename_callable(
+                            filename, uri
+                        )
+                    else:
+                        module_filename = None
+                    self._collection[uri] = template = Template(
+                        uri=uri,
+                        filename=posixpath.normpath(filename),
+                        lookup=self,
+                        module_filename=module_filename,
+                        **self.template_args,
+                    )
+                    return template
+                except:
+                    # if compilation fails etc, ensure
+                    # template is removed from collection,
+                    # re-raise
+                    self._collection.pop(uri, None)
+                    raise
         finally:
             self._mutex.release()
+
+        # loaded by a concurrent thread while this one waited for the
+        # mutex: it is checked against its file like any cached template
+        # (after the mutex is released; _check may have to load again)
+        if self.filesystem_checks:
+            return self._check(uri, template)
+        return template
 
     def _check(self, uri, template):
         if template.filename is None:
